@@ -2255,7 +2255,8 @@ PREFIX (_translate) (region_type_t *region, int x, int y)
         return;
     }
 
-    if (((x2 - PIXMAN_REGION_MIN) | (y2 - PIXMAN_REGION_MIN) | (PIXMAN_REGION_MAX - x1) | (PIXMAN_REGION_MAX - y1)) <= 0)
+    if (x2 <= PIXMAN_REGION_MIN || y2 <= PIXMAN_REGION_MIN ||
+	x1 >= PIXMAN_REGION_MAX || y1 >= PIXMAN_REGION_MAX)
     {
         region->extents.x2 = region->extents.x1;
         region->extents.y2 = region->extents.y1;
@@ -2285,8 +2286,8 @@ PREFIX (_translate) (region_type_t *region, int x, int y)
             pbox_out->x2 = x2 = (overflow_int_t)pbox->x2 + x;
             pbox_out->y2 = y2 = (overflow_int_t)pbox->y2 + y;
 
-            if (((x2 - PIXMAN_REGION_MIN) | (y2 - PIXMAN_REGION_MIN) |
-                 (PIXMAN_REGION_MAX - x1) | (PIXMAN_REGION_MAX - y1)) <= 0)
+            if (x2 <= PIXMAN_REGION_MIN || y2 <= PIXMAN_REGION_MIN ||
+                x1 >= PIXMAN_REGION_MAX || y1 >= PIXMAN_REGION_MAX)
             {
                 region->data->numRects--;
                 continue;
